@@ -979,9 +979,9 @@ func genScenario(r *hx.Rng, w io.Writer, backend string, nops int, unclean bool)
 }
 
 func genC14(r *hx.Rng, tier string, w io.Writer) {
-	nlog, nunclean, nbadger, nops := 120, 15, 0, 45
+	nlog, nunclean, nbadger, nops := 250, 30, 0, 45
 	if tier == "thorough" {
-		nlog, nunclean, nbadger, nops = 400, 40, 8, 60
+		nlog, nunclean, nbadger, nops = 900, 80, 16, 60
 	}
 	// malformed / out-of-order lines: both sides must answer bad-op
 	fmt.Fprintln(w, "get at=1")
